@@ -196,6 +196,9 @@ func Shrink(s Seq, bad func(Seq) bool) Seq {
 	for changed && budget > 0 {
 		changed = false
 		for i := 0; i < len(s.Ops); i++ {
+			if s.Mode == "route-miss" && s.Handler == "default" {
+				break // the one call is the container's, not the generator's
+			}
 			// dropping a call shifts the bottom writer's call indices: also try an earlier failure
 			for shift := 0; shift <= 3; shift++ {
 				if shift > 0 && s.Fail.From-shift < 0 {
@@ -227,7 +230,15 @@ func Shrink(s Seq, bad func(Seq) bool) Seq {
 			}
 		}
 		for _, f := range []func(*Seq) bool{
-			func(t *Seq) bool { ok := t.Fail.From >= 0; t.Fail = FailSpec{From: -1}; return ok },
+			func(t *Seq) bool {
+				ok := t.Fail.From >= 0
+				t.Fail = FailSpec{From: -1, HTTPLike: t.Fail.HTTPLike}
+				return ok
+			},
+			func(t *Seq) bool { ok := t.Fail.HTTPLike; t.Fail.HTTPLike = false; return ok },
+			func(t *Seq) bool { ok := t.Fail.Err != ""; t.Fail.Err = ""; return ok },
+			func(t *Seq) bool { ok := t.Mode == "route-miss" && t.Miss != "404"; t.Miss = "404"; return ok },
+			func(t *Seq) bool { ok := t.Mode == "route-miss" && t.JSR; t.JSR = false; return ok },
 			func(t *Seq) bool { ok := t.Fail.From > 0; t.Fail.From--; return ok },
 			func(t *Seq) bool { ok := t.Fail.Partial > 0; t.Fail.Partial /= 2; return ok },
 			func(t *Seq) bool { ok := t.Fail.From >= 0 && !t.Fail.Transient; t.Fail.Transient = true; return ok },
@@ -390,6 +401,26 @@ func account(run *report.Run, c *Case) {
 		run.Count("fail-from:never")
 	} else {
 		run.Count("fail-from:" + strconv.Itoa(c.Seq.Fail.From))
+		if c.Seq.Fail.Err == "" {
+			run.Count("fail-error-value:private")
+		} else {
+			run.Count("fail-error-value:" + c.Seq.Fail.Err)
+		}
+	}
+	if c.Seq.Fail.HTTPLike {
+		refused := false
+		for _, w := range c.Real.Bottom.Writes {
+			refused = refused || (w.Failed && w.Accepted == 0 && !bodyAllowed(c.Real.Bottom.status))
+		}
+		if refused {
+			run.Count("bottom-writer:net/http-like,body-refused-after-1xx/204/304")
+		} else {
+			run.Count("bottom-writer:net/http-like,no-body-refused")
+		}
+	}
+	if c.Seq.Mode == "route-miss" {
+		run.Count("route-miss:" + c.Seq.Miss)
+		run.Count("route-miss-handler:" + c.Seq.Handler)
 	}
 	// position (index of the high-level call) at which the Response first saw a failing Write
 	pos, events := -1, 0
